@@ -18,6 +18,19 @@ CHECKS = {
         "shift counts outside 0..63 unconstrained; floats not modelled.",
    technique="TLA+ reference evaluator + implementation-shaped machine model-checked by TLC; "
              "TLC-generated cases replayed into the real assembler; TLC trace acceptor decides"),
+ "C05": dict(
+   category="model_checking",
+   text="AsmData!Denote gives the image, symbol table and accept/reject outcome of data/location directive "
+        "programs; TLC enumerates every program of one and two statements over a 141-statement alphabet "
+        "(all width boundaries, escapes, .org/.align/.resb/.data_fill extremes, $ and label references) and "
+        "draws longer programs; each is assembled in-process by the real code on carriers with 1/2/4/8 bytes "
+        "per address and both byte orders, and TLC accepts the recorded image, symbols and low/high "
+        "addresses against Denote.",
+   design_ref="DESIGN.md 4 C05",
+   note="Trusted: renderer nv/asmtext.py, image reader in harness/m_asm.cpp. Addresses below 2^31; "
+        ".binfile is exercised through the CLI in C09/C13, not here.",
+   technique="TLA+ denotational spec of the directives; TLC BFS + simulation generate programs; "
+             "replayed into the real two-pass assembler; TLC trace acceptor compares image/symbols"),
 }
 
 NOT_YET = "machinery for this property is not built yet in this revision (planned in DESIGN.md section 8)"
